@@ -67,8 +67,10 @@ func workerMain(a []string) {
 		fatalf("unknown property %q", id)
 	}
 	// address-space cap so an exponential blow-up kills this worker, not the sandbox
-	lim := uint64(envInt("VERIF_WORKER_AS_GB", 8)) << 30
-	syscall.Setrlimit(syscall.RLIMIT_AS, &syscall.Rlimit{Cur: lim, Max: lim})
+	if id != "C13" { // C13 workers start -race children, which need a huge virtual address space
+		lim := uint64(envInt("VERIF_WORKER_AS_GB", 8)) << 30
+		syscall.Setrlimit(syscall.RLIMIT_AS, &syscall.Rlimit{Cur: lim, Max: lim})
+	}
 	debug.SetMaxStack(512 << 20)
 	c := newCtx(id, tier, shard, n)
 	c.Deadline = time.Now().Add(time.Duration(budget) * time.Second)
